@@ -69,6 +69,7 @@ type relHist struct {
 	h      *vdb.Handle
 	ops    []string
 	failed bool
+	models string // which static family (for the violation detail)
 }
 
 func (x *relHist) op(f string, a ...interface{}) { x.ops = append(x.ops, fmt.Sprintf(f, a...)) }
@@ -83,7 +84,11 @@ func (x *relHist) schemaSQL() []string {
 }
 
 func (x *relHist) violation(sig string, extra map[string]interface{}) {
-	d := map[string]interface{}{"models": "engine/c20/relv1 and relv2 (Co, Lang, Pet, User, Prof)", "operations": append([]string(nil), x.ops...), "schema_now": x.schemaSQL()}
+	models := x.models
+	if models == "" {
+		models = "engine/c20/relv1 and relv2 (Co, Lang, Pet, User, Prof)"
+	}
+	d := map[string]interface{}{"models": models, "operations": append([]string(nil), x.ops...), "schema_now": x.schemaSQL()}
 	for k, v := range extra {
 		d[k] = v
 	}
@@ -158,7 +163,7 @@ func perm(r *core.Rand, vals []interface{}) []interface{} {
 
 func runRelational(c *core.Ctx) {
 	r := c.R
-	h, err := vdb.Open(vdb.Options{DSNExtra: "_foreign_keys=1"})
+	h, err := vdb.Open(vdb.Options{})
 	if err != nil {
 		panic(err)
 	}
